@@ -1,3 +1,9 @@
+// STATUS: NOT WIRED INTO ANY CHECK (no checks/C42.json, no overlay).  The harness compiles
+// and runs, but CBMC needs > 8 GB / > 10 min for a single `WriteState::add` (see the
+// final report): the table lives in one untyped byte region accessed through pointer
+// casts at offsets (`read_off`/`write_off`) that are themselves loaded from that
+// region, so after the first offset swap every access is a symbolic-offset
+// byte_extract/byte_update over the whole region.  Kept for reference.
 // C42 (sequential kernel) - AFC shared-memory channel tables stay consistent.
 // C40 (sequential kernel, shared-memory part) - the reader's cached seal key keeps its
 // sequence number across writer operations that invalidate the cache.
@@ -228,15 +234,10 @@ fn new_writer() -> WriteState<CS, ConstRng> {
     }
 }
 
-/// `adds` channels added first (to reach interesting fill levels cheaply), then `k`
-/// arbitrary operations; tables checked after every operation.
-const EV_ADD_FULL: u8 = 1;
-const EV_ADD_ROOM: u8 = 2;
-const EV_REMOVE_HIT: u8 = 4;
-const EV_REMOVE_IF_ONE: u8 = 8;
-const EV_REMOVE_ALL: u8 = 16;
-
-fn writer_ops(adds: usize, k: usize) -> u8 {
+/// `adds` channels added first (real `add`s, checked), then the operations in `ops`
+/// (kinds concrete, arguments symbolic); tables checked after every operation and a
+/// symbolic id probed through the writer's and a reader's `exists`.
+fn writer_ops(adds: usize, ops: &[u8]) -> usize {
     let base: [u8; NONCE] = kani::any();
     let w = new_writer();
     let r = ReadState::<CS> {
@@ -251,56 +252,60 @@ fn writer_ops(adds: usize, k: usize) -> u8 {
     let mut i = 0;
     while i < adds {
         step(&w, &mut m, &base, 0);
-        check_tables(&w, &m);
         i += 1;
     }
-    let mut ev = 0u8;
+    check_tables(&w, &m);
     let mut i = 0;
-    while i < k {
-        let op: u8 = kani::any();
-        kani::assume(op < 4);
-        let before = m.len;
-        step(&w, &mut m, &base, op);
+    while i < ops.len() {
+        step(&w, &mut m, &base, ops[i]);
         check_tables(&w, &m);
-        let probe: u64 = kani::any();
-        kani::assume(probe < 4);
-        check_exists(&w, &r, &m, probe);
-        if (op == 0) & (before == CAP) {
-            ev |= EV_ADD_FULL;
-        }
-        if (op == 0) & (before < CAP) {
-            ev |= EV_ADD_ROOM;
-        }
-        if (op == 1) & (m.len < before) {
-            ev |= EV_REMOVE_HIT;
-        }
-        if (op == 3) & (m.len + 1 == before) & (before == CAP) {
-            ev |= EV_REMOVE_IF_ONE;
-        }
-        if (op == 2) & (before > 0) {
-            ev |= EV_REMOVE_ALL;
-        }
         i += 1;
     }
+    let probe: u64 = kani::any();
+    kani::assume(probe < 4);
+    check_exists(&w, &r, &m, probe);
     core::mem::forget(r);
     core::mem::forget(w);
-    ev
+    m.len
 }
 
-proof!(c42_writer_ops_from_empty, 48, {
-    let ev = writer_ops(0, 2);
-    kani::cover!(ev & EV_ADD_ROOM != 0, "add with room");
-    kani::cover!(ev & EV_REMOVE_HIT != 0, "remove of a present channel");
-    kani::cover!(ev & EV_REMOVE_ALL != 0, "remove_all on a non-empty table");
+const ADD: u8 = 0;
+const REMOVE: u8 = 1;
+const REMOVE_ALL: u8 = 2;
+const REMOVE_IF: u8 = 3;
+
+proof!(c42_add_from_empty, 48, {
+    let n = writer_ops(0, &[ADD]);
+    kani::cover!(n == 1, "added");
 });
-proof!(c42_writer_ops_from_one, 48, {
-    let ev = writer_ops(1, 2);
-    kani::cover!(ev & EV_ADD_FULL != 0, "add on a full table");
-    kani::cover!(ev & EV_REMOVE_HIT != 0, "remove of a present channel");
+proof!(c42_add_from_one, 48, {
+    let n = writer_ops(1, &[ADD]);
+    kani::cover!(n == 2, "added second");
 });
-proof!(c42_writer_ops_from_full, 48, {
-    let ev = writer_ops(2, 2);
-    kani::cover!(ev & EV_ADD_FULL != 0, "add on a full table");
-    kani::cover!(ev & EV_REMOVE_IF_ONE != 0, "remove_if removed one of two");
-    kani::cover!((ev & EV_REMOVE_HIT != 0) & (ev & EV_ADD_ROOM != 0), "remove then add again");
+proof!(c42_add_on_full, 48, {
+    let n = writer_ops(2, &[ADD]);
+    kani::cover!(n == 2, "out of space, table unchanged");
+});
+proof!(c42_remove_from_full, 48, {
+    let n = writer_ops(2, &[REMOVE]);
+    kani::cover!(n == 1, "removed one");
+    kani::cover!(n == 2, "id absent, nothing removed");
+});
+proof!(c42_remove_if_from_full, 48, {
+    let n = writer_ops(2, &[REMOVE_IF]);
+    kani::cover!(n == 0, "removed both");
+    kani::cover!(n == 1, "removed one");
+    kani::cover!(n == 2, "removed none");
+});
+proof!(c42_remove_all_from_full, 48, {
+    let n = writer_ops(2, &[REMOVE_ALL]);
+    kani::cover!(n == 0, "cleared");
+});
+proof!(c42_remove_then_add, 48, {
+    let n = writer_ops(2, &[REMOVE, ADD]);
+    kani::cover!(n == 2, "slot reused by a channel with a fresh id");
+});
+proof!(c42_remove_on_empty, 48, {
+    let n = writer_ops(0, &[REMOVE, REMOVE_IF, REMOVE_ALL]);
+    kani::cover!(n == 0, "still empty");
 });
